@@ -19,6 +19,7 @@
 
 char* gp_buf; char* gp_tmp; char* gp_line;
 int g_cap_buf, g_cap_tmp, g_cap_line, g_nul, g_calls, g_j, g_len, g_off, g_bufsize;
+void* gp_ns[2]; int g_dtor[3]; int g_free[6]; int g_dtor_at_free[2];
 char nondet_char(void);
 long nondet_long(void);
 static void havoc_ghosts(void)
@@ -91,6 +92,30 @@ void h_collapse(void)
    int cap_tmp, cap_line; int* out;
    havoc_ghosts();
    w_collapse(cap_tmp, cap_line, out);
+   CANARY();
+}
+#endif
+
+#ifdef INST_epilogue
+/* epilogue (C13 "without ... leak"): a name set readLPF created itself is destroyed exactly once and THEN freed exactly once; a
+ * caller's name set is neither destroyed nor freed; buf, tmp and line are freed exactly once each; nothing else is destroyed or
+ * freed (no free of a null pointer either); the return value is `finished`.  Double frees / use after free are pointer checks. */
+int w_epilogue(int own_c, int own_r, int finished, int lineno)
+__CPROVER_requires(1)
+__CPROVER_assigns(GHOSTS, __CPROVER_object_whole(gp_ns), __CPROVER_object_whole(g_dtor), __CPROVER_object_whole(g_free), __CPROVER_object_whole(g_dtor_at_free))
+__CPROVER_ensures((own_c != 0) ==> (g_dtor[0] == 1 && g_free[0] == 1 && g_dtor_at_free[0] == 1))
+__CPROVER_ensures((own_c == 0) ==> (g_dtor[0] == 0 && g_free[0] == 0))
+__CPROVER_ensures((own_r != 0) ==> (g_dtor[1] == 1 && g_free[1] == 1 && g_dtor_at_free[1] == 1))
+__CPROVER_ensures((own_r == 0) ==> (g_dtor[1] == 0 && g_free[1] == 0))
+__CPROVER_ensures(g_free[2] == 1 && g_free[3] == 1 && g_free[4] == 1)
+__CPROVER_ensures(g_dtor[2] == 0 && g_free[5] == 0)
+__CPROVER_ensures((__CPROVER_return_value != 0) == (finished != 0))
+;
+void h_epilogue(void)
+{
+   int own_c, own_r, finished, lineno;
+   havoc_ghosts();
+   w_epilogue(own_c, own_r, finished, lineno);
    CANARY();
 }
 #endif
